@@ -363,6 +363,15 @@ def check_coherent(mbi, model, case, tag, solver, viol, probes):
             viol.append(v.as_dict())
             return
         answers.append(('project', q, np.asarray(a.values, dtype=float)))
+    # the Kronecker-query path: identity on one attribute, all-ones rows elsewhere = a one-way marginal
+    j = len(model.cliques) % len(attrs)
+    mats = [np.eye(case['sizes'][i]) if i == j else np.ones((1, case['sizes'][i])) for i in range(len(attrs))]
+    kd, v = guard_repo(lambda: np.asarray(model.krondot(mats), dtype=float), 'krondot')
+    if v:
+        viol.append(v.as_dict())
+        return
+    if theta_mag(model) * len(model.cliques) < 600:     # krondot exponentiates the raw parameters (and logZ) by construction: only where exp() cannot overflow
+        answers.append(('krondot', [attrs[j]], kd.reshape(-1)))
     for kind, q, arr in answers:
         if not np.all(np.isfinite(arr)):
             viol.append(Violation('c08-finite', 'c08-finite:' + solver, '%s(%s) has non-finite entries (%s)' % (kind, q, tag)).as_dict())
